@@ -25,7 +25,7 @@ def build(t):
         vals = []
         for x in v:
             tag, val = x.split(":", 1)
-            vals.append(int(val) if tag == "i" else (val == "true") if tag == "b" else val)
+            vals.append(int(val) if tag == "i" else (val == "true") if tag == "b" else None if tag == "n" else val)
         return ty.LiteralType(vals)
     if k in ("ListType", "SetType", "TupleType", "UnionType"):
         return getattr(ty, k)(sub)
